@@ -566,6 +566,12 @@ func runC06(c *engine.Ctx) {
 
 	// ---- R15 a queued un-register closure names the route it registered (shared with C10.R11) ----
 	checkQueuedClosureCaptures(c, "R15")
+
+	// ---- R16 (shared with C16.R1) ----
+	c16MapsRule(c, engine.AnalyzeLocks(c.P), "R16")
+
+	// ---- R17 a closed route delivers nothing more: its hand-off is a rendezvous (shared with C16.R32) ----
+	checkChannelCapacityClass(c, "R17")
 }
 
 // checkRequestUserFallback: the user that selects the route is taken from Proxy-Authorization for proxy-form requests
@@ -643,6 +649,7 @@ type walkerPlan struct {
 	splitDot    bool
 	joinDot     bool
 	userThenAny bool
+	earlyExit   string // an exit of the wildcard loop other than "labels exhausted" / "found"
 }
 
 func planOf(f *ssa.Function) (*walkerPlan, string) {
@@ -808,6 +815,44 @@ func planOf(f *ssa.Function) (*walkerPlan, string) {
 			}
 		}
 	}
+	// the wildcard loop ends only because the labels are exhausted or a route was found: any other way out (a budget,
+	// a timeout) skips less specific wildcards that would have matched
+	if finderCallAt != nil {
+		if h := engine.LoopHeader(finderCallAt.Block()); h != nil && pl.finderCalls >= 3 {
+			inLoop := func(b *ssa.BasicBlock) bool {
+				return h.Dominates(b) && len(b.Instrs) > 0 && len(h.Instrs) > 0 && (b == h || engine.InstrReaches(b.Instrs[0], h.Instrs[0]))
+			}
+			for _, b := range f.Blocks {
+				if !inLoop(b) {
+					continue
+				}
+				for _, succ := range b.Succs {
+					if inLoop(succ) {
+						continue
+					}
+					// leaving the loop from b to succ
+					if len(succ.Instrs) > 0 {
+						if _, isRet := succ.Instrs[len(succ.Instrs)-1].(*ssa.Return); isRet && len(succ.Instrs) <= 3 {
+							continue // found: return
+						}
+					}
+					okExit := false
+					if t, isIf := b.Instrs[len(b.Instrs)-1].(*ssa.If); isIf {
+						if bo, isBin := t.Cond.(*ssa.BinOp); isBin {
+							if lc, ok := bo.X.(*ssa.Call); ok {
+								if bi, ok := lc.Call.Value.(*ssa.Builtin); ok && bi.Name() == "len" {
+									okExit = true
+								}
+							}
+						}
+					}
+					if !okExit {
+						pl.earlyExit = "the wildcard loop can be left at " + f.Prog.Fset.Position(b.Instrs[len(b.Instrs)-1].Pos()).String() + " before the labels are exhausted"
+					}
+				}
+			}
+		}
+	}
 	return pl, ""
 }
 
@@ -881,6 +926,9 @@ func checkWalkers(c *engine.Ctx) {
 		}
 		if !pl.finalStar {
 			bad = append(bad, "the catch-all \"*\" must be tried last")
+		}
+		if pl.earlyExit != "" {
+			bad = append(bad, pl.earlyExit+": a less specific wildcard that matches is skipped and the catch-all (or nobody) gets the connection")
 		}
 		if pl.finderCalls != 3 {
 			bad = append(bad, fmt.Sprintf("expected three lookup steps (exact, wildcard loop, catch-all), found %d", pl.finderCalls))
